@@ -435,3 +435,17 @@ pub fn sign_challenge(
     let data = ChallengeData::try_from(challenge).map_err(|_| "challenge size")?;
     crate::handler::verif_sign_nonce(key, &data, ephem_pubkey, dst_id)
 }
+
+// ------------------------------------------------------------------------------------------
+// Process-global permit/ban list (H7).
+// ------------------------------------------------------------------------------------------
+
+/// A copy of the process-global permit/ban list.
+pub fn ban_list_snapshot() -> crate::PermitBanList {
+    crate::discv5::PERMIT_BAN_LIST.read().clone()
+}
+
+/// Empties the process-global permit/ban list.
+pub fn ban_list_reset() {
+    *crate::discv5::PERMIT_BAN_LIST.write() = crate::PermitBanList::default();
+}
